@@ -7,6 +7,18 @@ package main
 //	warm-concurrent                                                 which=7   concurrency over warm buffer pools
 //	gzip-faults, gzip-reject-first                                  which=6   failing gzip bodies, pooled failed readers
 
+// Self-test (scratch copy of /repo + this harness + the extracted model, outside ./check; /repo itself untouched):
+//
+//	`if err == io.EOF { break }` in processBulk           -> exhaustive-eof-data, random-flagged-read (+ gzip streams)
+//	non-EOF error ignored when n > 0                       -> exhaustive-err-data, random-flagged-read ONLY
+//	handing over the n bytes before returning the error    -> silent (allowed: both readings accepted by the model glue)
+//	CRLF dropped at the end of a FULL 16 KiB read          -> boundary-16k ONLY
+//	newEventBuffs without [:0]                             -> exhaustive-eof-data, random-flagged-read (after an err-data case)
+//	one shared readBuff / early Put of eventBuff           -> warm-concurrent (23/30 resp. 22/30 cases; `concurrent` 1/150 resp. 105/150)
+//	readBuffs.Put twice                                    -> warm-concurrent + gzip histories, NOT `concurrent`
+//	gzip.ErrChecksum / io.ErrUnexpectedEOF treated as EOF  -> gzip-faults, gzip-reject-first ONLY
+//	Multistream(false)                                     -> gzip-faults, gzip-reject-first ONLY
+//	putGzipReader(nil) on the acquire error path           -> gzip-reject-first, gzip-faults ONLY (status -1 = recovered panic)
 import (
 	"bytes"
 	"fmt"
